@@ -83,6 +83,95 @@ def gen_fp(rng, name):
     return {"line": line, "name": name, "history": n}
 
 
+def gen_fresh(rng, name):
+    """the result of an attempt is a function of the attempt's inputs only: the same calls S on a fresh
+    object and on an object that first went through a polluted attempt P (large / non finite values)"""
+    psz = rng.randint(1, 4)
+    def calls(n, pollute):
+        out = []
+        for k in range(n):
+            sc = 0.5 ** k
+            u, du, r = vec(rng, psz, 1.0), vec(rng, psz, sc), vec(rng, psz, sc)
+            if pollute:
+                bad = rng.choice([float("nan"), float("inf"), 1e300, -1e300])
+                which = rng.choice("udr")
+                if which == "u":
+                    u[rng.randrange(psz)] = bad
+                elif which == "d":
+                    du[rng.randrange(psz)] = bad
+                else:
+                    r[rng.randrange(psz)] = bad
+            out.append((u, du, r))
+        return out
+    P = calls(rng.randint(1, 8), True)
+    S = calls(rng.randint(1, 9), False)
+    def seg(c):
+        return "%d %s" % (len(c), " ".join(" ".join(map(hx, u + du + r)) for u, du, r in c))
+    head = "acc %s %d -1 -1 %s %s" % (name, psz, hx(1e-12), hx(1e-3))
+    return {"name": name, "psz": psz, "nS": len(S), "polluted": head + " 2 " + seg(P) + " " + seg(S),
+            "fresh": head + " 1 " + seg(S)}
+
+
+def gen_proto(rng):
+    dyn = rng.random() < 0.5
+    iterMax = rng.choice([2, 3, 5, 8])
+    pp = rng.choice([0, 1, 2])
+    na = rng.choice([3, 8, 30])
+    atts = []
+    for i in range(na):
+        fail = rng.random() < (0.6 if i == 0 else 0.25)
+        if fail:
+            kind = rng.choice([1, 2, 3, 4, 0])
+            at = rng.randint(1, 3) if kind == 1 else (iterMax + 1 if kind == 0 else 1)
+        else:
+            kind, at = 0, rng.randint(1, min(iterMax, 4))
+        atts.append((kind, rng.choice([1.0, 1.0, 0.5, 1.5]) if dyn else 1.0, at))
+    ti = float(rng.randint(0, 3))
+    te = ti + rng.choice([1.0, 2.0])
+    line = "proto %d %d %d %d %s %s %d %s" % (1 if dyn else 0, 10, iterMax, pp, hx(ti), hx(te), na,
+                                              " ".join("%d %s %d" % (k, hx(f), a) for k, f, a in atts))
+    return {"line": line, "dyn": dyn, "iterMax": iterMax, "ppolicy": pp, "script": atts, "ti": ti, "te": te}
+
+
+def expected_protocol(req, n_attempts):
+    """calls to the acceleration algorithm attempt by attempt (GenericSolver.cxx: iterate): the algorithm is
+    restarted (preExecuteTasks) at the beginning of EVERY attempt, executed after each non converged iteration
+    but the last allowed one, and closed (postExecuteTasks) when the Newton loop converges"""
+    need = 2 if req["ppolicy"] == 0 else 1
+    ev = []
+    for kind, _, at in req["script"][:n_attempts]:
+        ev.append("a")
+        if kind == 4:
+            continue
+        ev.append("p")
+        k = 0
+        while True:
+            k += 1
+            if kind == 1 and at == k:
+                break
+            conv = k >= need and kind != 2 and not (kind == 0 and k < at)
+            if conv:
+                ev.append("q")
+                break
+            if k == req["iterMax"]:
+                break
+            ev.append("x%d" % k)
+    return ev
+
+
+def poisoned_sets(rng, p, iterMax):
+    """the first attempt of the first time step leaves the domain of the law (non finite forces at every
+    iteration): it is rejected and the solver sub-steps; every algorithm must then reach the same results"""
+    out = []
+    pp = rng.choice([0, 1, 2, 4])
+    dyn = rng.random() < 0.3
+    script = [(2, 1.0)] * iterMax
+    for aa in ["none"] + ALL:
+        out.append({"aa": aa, "ppolicy": pp, "ktype": 4, "rounding": "ToNearest", "dyn": dyn, "script": script,
+                    "iterMax": iterMax, "poisoned": True})
+    return out
+
+
 def option_sets(rng, base):
     """variants of one problem: (label, aa, ppolicy, ktype, rounding, dyn, script)"""
     out = []
@@ -105,7 +194,7 @@ def mt_line(p, o):
     ndv = p["ndv"]
     return "mt %d %s %s %s %s %d %d %d %d %s %d %s %d %s %d %s %d %s" % (
         ndv, hx(p["nl"]), " ".join(hx(p["D"][i][j]) for i in range(ndv) for j in range(ndv)), hx(p["eeps"]), hx(p["seps"]),
-        1 if o["dyn"] else 0, 10, 200, o["ppolicy"], o["aa"], o["ktype"], o["rounding"], len(p["times"]),
+        1 if o["dyn"] else 0, 10, o.get("iterMax", 200), o["ppolicy"], o["aa"], o["ktype"], o["rounding"], len(p["times"]),
         " ".join(map(hx, p["times"])), len(p["cons"]), " ".join("%s %d %s" % (k, c, d) for k, c, d, _ in p["cons_desc"]),
         len(o["script"]), " ".join("%d %s" % (ok, hx(f)) for ok, f in o["script"]))
 
@@ -168,8 +257,18 @@ def run(ck):
         mt_reqs.append((pi_, base, mt_line(p, base)))
         for o in option_sets(rng, p):
             mt_reqs.append((pi_, o, mt_line(p, o)))
+    # poisoned first attempt under every algorithm
+    pois = []
+    for pi_ in range(len(problems)):
+        if pi_ % 3 == 0:
+            for o in poisoned_sets(rng, problems[pi_], 12):
+                pois.append((pi_, o, mt_line(problems[pi_], o)))
+    fresh = [gen_fresh(rng, rng.choice(ALL)) for _ in range(400 if q else 8000)]
+    protos = [gen_proto(rng) for _ in range(400 if q else 8000)]
     text_acc = "".join(r["line"] + "\n" for r in accs)
-    text = text_acc + "".join(r["line"] + "\n" for r in fps) + "".join(l + "\n" for _, _, l in mt_reqs)
+    text = text_acc + "".join(r["line"] + "\n" for r in fps) + "".join(l + "\n" for _, _, l in mt_reqs) + \
+        "".join(l + "\n" for _, _, l in pois) + "".join(r["polluted"] + "\n" + r["fresh"] + "\n" for r in fresh) + \
+        "".join(r["line"] + "\n" for r in protos)
     pi = c48lib.run_harness(ck, harness, text)
     pm = ck.run([driver], input=text_acc, timeout=1200)
     if pi.returncode != 0:
@@ -280,6 +379,100 @@ def run(ck):
                            {"request": line, "baseline_request": runs[0][1], "options": o, "attempts": per.get(T, [])[-6:],
                             "implementation": pretty(a)[:3000], "baseline": pretty(runs[0][2])[:3000]})
                     break
+    off += len(mt_reqs)
+    # ---- poisoned first attempt: an algorithm under which the run aborts while the others complete
+    pois_groups = {}
+    for k, (pi_, o, line) in enumerate(pois):
+        a = impl[off + k] if off + k < len(impl) else "missing"
+        pois_groups.setdefault(pi_, []).append((o, line, a))
+    pois_completed = 0
+    for pi_, runs in pois_groups.items():
+        p = problems[pi_]
+        n = p["ndv"] + sum(1 for kk, _, _ in p["cons"] if kk == "g")
+        parsed = [(o, line, a) + parse_mt(a, n, p["ndv"]) for o, line, a in runs]
+        ends = [x for x in parsed if x[3] == "end"]
+        pois_completed += len(ends)
+        ref = [x for x in parsed if x[0]["aa"] == "none"]
+        if not ref or ref[0][3] != "end":
+            continue
+        lam = 3.0
+        lmax = max(sum(abs(x) for x in row) for row in p["D"]) + 3 * abs(p["nl"])
+        tol_e = 10 * (p["eeps"] + p["seps"] / lam)
+        tol_s = 10 * (p["seps"] + lmax * p["eeps"]) + lmax * tol_e
+        for o, line, a, v, rr, per in parsed:
+            hist["poisoned:" + v.split(":")[0]] = hist.get("poisoned:" + v.split(":")[0], 0) + 1
+            distinct.add(("poisoned", o["aa"], o["ppolicy"], o["dyn"], v))
+            if o["aa"] == "none":
+                continue
+            src = SRC.get(o["aa"], "AccelerationAlgorithmFactory")
+            if v != "end":
+                disagreements += 1
+                others = sorted(x[0]["aa"] for x in ends)
+                report("mtest/src/GenericSolver.cxx:acceleration:abort-after-rejected-attempt", True,
+                       "the first attempt of the first time step is rejected (non finite forces) and the solver sub-steps: "
+                       "the run then aborts (%s) with the %s acceleration algorithm while it completes without acceleration "
+                       "and with %d other algorithms (%s ...)" % (v, o["aa"], len(others) - 1, ", ".join(others[:5])),
+                       {"request": line, "options": o, "implementation": pretty(a)[:3000],
+                        "reference_request_without_acceleration": ref[0][1], "algorithms_that_complete": others,
+                        "attempts": [per.get(T, [])[-8:] for T in list(per)[:2]]})
+                continue
+            for T, (u, sg) in rr.items():
+                ub, sb = ref[0][4].get(T, (None, None))
+                if ub is None:
+                    continue
+                compared += 1
+                bad = [c for c in range(n) if not abs(u[c] - ub[c]) <= tol_e] + \
+                      [c for c in range(p["ndv"]) if not abs(sg[c] - sb[c]) <= tol_s]
+                if bad:
+                    disagreements += 1
+                    report("mtest/src/%s.cxx:after-rejected-attempt" % src, True,
+                           "after a rejected first attempt the results at %r with %s differ from the run without acceleration "
+                           "(component %d)" % (T, o["aa"], bad[0]),
+                           {"request": line, "reference_request_without_acceleration": ref[0][1], "options": o})
+                    break
+    off += len(pois)
+    # ---- an attempt is a function of its inputs only (restart at preExecuteTasks)
+    stale = {}
+    for j, r in enumerate(fresh):
+        a_p = impl[off + 2 * j] if off + 2 * j < len(impl) else "missing"
+        a_f = impl[off + 2 * j + 1] if off + 2 * j + 1 < len(impl) else "missing"
+        tail_p = a_p.split()[-r["nS"] * r["psz"]:]
+        tail_f = a_f.split()[-r["nS"] * r["psz"]:]
+        hist["fresh:" + r["name"]] = hist.get("fresh:" + r["name"], 0) + 1
+        if not a_p.startswith("v") or not a_f.startswith("v"):
+            report("fresh:harness", False, "request failed: " + (a_p + " / " + a_f)[:200], {"request": r["polluted"]})
+            continue
+        if tail_p != tail_f:
+            stale[r["name"]] = stale.get(r["name"], 0) + 1
+            if r["name"] not in ANCHORED:
+                continue      # outside the anchors of the property: recorded in the evidence as an observation
+            disagreements += 1
+            src = SRC.get(r["name"])
+            report(("mtest/src/%s.cxx" % src if src else "mtest/src/" + r["name"]) + ":attempt-depends-on-previous-attempt", True,
+                   "%s: the same calls give different accelerated iterates on a fresh object and after a previous (polluted) "
+                   "attempt followed by preExecuteTasks: the attempt is not a function of its inputs only" % r["name"],
+                   {"request": r["polluted"], "fresh_request": r["fresh"], "after_polluted_attempt": pretty(" ".join(tail_p))[:1500],
+                    "fresh": pretty(" ".join(tail_f))[:1500]})
+    off += 2 * len(fresh)
+    # ---- protocol of the calls made by GenericSolver::execute to the acceleration algorithm
+    for j, r in enumerate(protos):
+        a = impl[off + j] if off + j < len(impl) else "missing"
+        f = a.split()
+        hist["proto:" + (f[0] if f else "missing").split(":")[0]] = hist.get("proto:" + (f[0] if f else "missing").split(":")[0], 0) + 1
+        if not f or f[0].startswith("err") or f[0] == "missing":
+            report("proto:harness", False, "protocol request failed: " + a[:200], {"request": r["line"]})
+            continue
+        ev = f[1:]
+        exp = expected_protocol(r, ev.count("a"))
+        distinct.add(("proto", r["dyn"], r["ppolicy"], f[0], min(ev.count("a"), 6)))
+        if ev != exp:
+            disagreements += 1
+            k = next((i for i, (x, y) in enumerate(zip(ev + ["-"], exp + ["-"])) if x != y), 0)
+            report("mtest/src/GenericSolver.cxx:iterate:acceleration-protocol", True,
+                   "GenericSolver::execute does not restart / run / close the acceleration algorithm once per resolution attempt: "
+                   "calls %s, expected %s (first difference at event %d)" % (" ".join(ev[:24]), " ".join(exp[:24]), k),
+                   {"request": r["line"], "request_decoded": pretty(r["line"]), "script": r["script"], "calls": ev, "expected": exp,
+                    "legend": "a = attempt (prepare), p = preExecuteTasks, x<i> = execute at iteration i, q = postExecuteTasks"})
     found_sites = {k.split(":")[0] for k, v in classes.items() if v[0]}
     for key, (found, what, rep) in sorted(classes.items()):
         if key.startswith("corr:") and key.split(":")[1] in found_sites:
@@ -293,13 +486,16 @@ def run(ck):
         "the mock behaviour of harness/C48/mockbehaviour.hxx stands for a generated behaviour",
     ]
     return ck.finish({
-        "evaluations": len(accs) + len(fps) + len(mt_reqs), "distinct_nontrivial": len(distinct),
+        "evaluations": len(accs) + len(fps) + len(mt_reqs) + len(pois) + 2 * len(fresh) + len(protos), "distinct_nontrivial": len(distinct),
         "rule": "acc requests = seeded call histories (geometric decay, random, stalled with repeated calls, tiny values; 1-3 attempts per object; zero residuals/corrections injected) for the four modelled algorithms (distinct = (algorithm, style, #calls bucket)); mt requests = problems x option sets (distinct = (acceleration, prediction, stiffness type, rounding, sub-stepping, mode, verdict) observed)",
         "exhaustive": False, "disagreements": disagreements,
         "traces_validated_against_impl": len(accs),
         "fixed_point_calls_checked_on_implementation": len(fps),
         "observation_unmodelled_algorithms_fixed_point_kept_vs_moved": fp_obs,
         "option_runs_completed": completed, "states_compared_with_baseline": compared,
+        "poisoned_first_attempt_runs": len(pois), "poisoned_first_attempt_runs_completed": pois_completed,
+        "fresh_vs_polluted_attempts_compared": len(fresh), "observation_algorithms_whose_attempt_depends_on_the_previous_attempt": stale,
+        "solver_protocol_traces_checked": len(protos),
         "histogram": hist,
         "samples": [pretty(accs[0]["line"])[:200], pretty(impl[0])[:200] if impl else "?", mt_reqs[1][2][:120] + " ..."],
     })
